@@ -246,7 +246,8 @@ def value_for(r, f, alpha):
         scale = r.choice((0, 1, 2, 3))
         w = flen if ftype == 'FIXED' else 12
         digs = max(1, min(w - (1 if scale else 0) - 1, 9 if w < 30 else 37))
-        return decimal.Decimal(r.randrange(10 ** digs)).scaleb(-scale)
+        n = r.randrange(10 ** digs)          # exact construction (scaleb would round to the context precision of 28 digits)
+        return decimal.Decimal((0, tuple(int(c) for c in str(n)), -scale))
     if proc == 'DE43':
         return rde43(r, cap)
     if proc in ('PAN', 'PAN-PREFIX'):
